@@ -106,9 +106,15 @@ func DecodeRequestHeader(c Command, req []byte) (remaining []byte, userId uint16
 		return req, 0, err
 	}
 
+	if len(req) < 4 {
+		return req, 0, errors.Errorf("Request too short: %q", req)
+	}
 	req = req[4:] // Remove command type + cache
 
 	if c.NeedsUserId {
+		if len(req) < 2 {
+			return req, 0, errors.Errorf("Request too short for a user id: %q", req)
+		}
 		u, err := strconv.ParseUint(string(req[0:2]), 36, 16)
 		if err != nil {
 			return req, 0, err
